@@ -297,6 +297,10 @@ def check(run, prog, tier):
     run.rule("C11-g", "a function that arms a recovery point with setjmp() and runs a heart-beat round in the code between the setjmp() and its main loop re-enters that code after every uncaught error: the round is under a once-flag that is set BEFORE the round is called (a heart_beat that raises jumps back to the setjmp; a flag set after the call is still clear then, and the objects in front of the failing one get a second heart_beat in the same tick)", 1)
     ng = 0
     for f in sorted(prog.functions(), key=lambda x: (x.file, x.line)):
+        if not any(n.get("fn") in ("setjmp", "_setjmp", "__sigsetjmp", "sigsetjmp") for b, i, n in f.calls()):
+            continue
+        # with file-local helpers spliced in: the start-up steps may sit in a helper that is handed the flags
+        f = prog.funci(f.name) or f
         sj = [(b, i, n) for b, i, n in f.calls() if n.get("fn") in ("setjmp", "_setjmp", "__sigsetjmp", "sigsetjmp")]
         rounds = [(b, i, n) for b, i, n in f.calls("call_heart_beat")]
         if not sj or not rounds:
